@@ -3582,7 +3582,9 @@ MasterConnection_deactivate(MasterConnection self)
             notify = true;
     }
 
-    self->state = M_CON_STATE_UNCONFIRMED_STOPPED;
+    /* a connection that is not started stays stopped (e.g. the stand-by connections of a redundancy group when another one is activated) */
+    if (self->state == M_CON_STATE_STARTED)
+        self->state = M_CON_STATE_UNCONFIRMED_STOPPED;
 
 #if (CONFIG_USE_SEMAPHORES == 1)
     Semaphore_post(self->stateLock);
